@@ -182,12 +182,25 @@ func instantiateGenericModel(
 	// is not safe to mutate.
 	clonedStruct := reducedStruct.Clone()
 
-	rawParamNames := linq.Map(typeParamReplacementNodes, func(tParamNode *SymbolNode) string {
+	rawParamNames := make([]string, 0, len(typeParamReplacementNodes))
+	for _, tParamNode := range typeParamReplacementNodes {
 		if tParamNode.Kind.IsBuiltin() {
-			return tParamNode.Id.Name
+			rawParamNames = append(rawParamNames, tParamNode.Id.Name)
+			continue
 		}
-		return tParamNode.Data.(*metadata.TypeParamDeclMeta).Name
-	})
+
+		typeParamDecl, isTypeParamDecl := tParamNode.Data.(*metadata.TypeParamDeclMeta)
+		if !isTypeParamDecl {
+			// Declared types (Box[User]) and composites (Box[[]int], Box[Box[int]]) end up here
+			return clonedStruct, fmt.Errorf(
+				"instantiating generic struct '%s' with a type argument of kind '%s' ('%s') is not currently supported",
+				rawStruct.Name,
+				tParamNode.Kind,
+				tParamNode.Id.Name,
+			)
+		}
+		rawParamNames = append(rawParamNames, typeParamDecl.Name)
+	}
 
 	if modelNameTransformer != nil {
 		clonedStruct.Name = modelNameTransformer(clonedStruct.Name, rawParamNames)
